@@ -6,5 +6,6 @@ func init() {
 			"the mirror (Go's own slices, maps, strings, reflect.Slice3/Append-in-place semantics, Go's conversion rules between int64/float64/string/bool) is the specification",
 			"capacity chosen by a growing append is not specified by Go and is adopted from the observation; nil stored into a typed slot and a float index may either fail or behave as the zero value / the truncated index",
 			"reads are bare expression statements compared immediately: binding a variable to a typed element / struct field read (x = v[0]; x = s.A; w = s.D) keeps it bound to the slot in anko (value-vs-reference design left open by the statement) and is never generated",
-			"not generated or skipped at resolution time (unspecified): copies of struct values, stores into a nil map, bool and numeral-string indices, slicing beyond len within cap, member access on maps with non-string keys, nil keys on typed maps, delete on strings")})
+			"not generated or skipped at resolution time (unspecified): copies of struct values, stores into a nil map, bool and numeral-string indices, slicing beyond len within cap, member access on maps with non-string keys, nil keys on typed maps, delete on strings",
+			"basictypes: a basic type name of the language denotes the Go type of the same name (byte = uint8, rune = int32, interface = interface{}) and 'converts the value as Go would' is reflect.Value.Convert between the two Go types; left open there (not executed, counted): float operands whose truncation does not fit the integer target or that exceed the float32 range (Go: implementation-dependent), a string of at most one character stored into byte / rune (Go has no such conversion, anko converts an ASCII character: an extension the statement neither grants nor describes)")})
 }
